@@ -208,7 +208,8 @@ struct Harness
       return "stats clock_realtime=" + std::to_string(g_clockReal.load()) + " clock_monotonic=" + std::to_string(g_clockMono.load()) +
              " write=" + std::to_string(g_nWrite.load()) + " open=" + std::to_string(g_nOpen.load()) + " rename=" +
              std::to_string(g_nRename.load()) + " truncate=" + std::to_string(g_nTrunc.load()) + " unlink=" +
-             std::to_string(g_nUnlink.load()) + " sliced_waits=" + std::to_string(g_slicedWaits.load());
+             std::to_string(g_nUnlink.load()) + " sliced_waits=" + std::to_string(g_slicedWaits.load()) + " stress_reads=" +
+             std::to_string(g_stressReads.load());
     }
     if (!store) return "bad-op";
     if (op == "now")
@@ -216,6 +217,98 @@ struct Harness
       if (t.size() != 2 || !parseInt(t[1], now) || now < g_wallMs.load()) return "bad-op";
       g_wallMs = now;
       return "ok | -";
+    }
+    if (op == "stress")
+    { // stress <seed> <ms>: one writer, two readers and the clock race the real wheel + eviction worker (free-running mode).
+      // Implementation-only safety monitor: every value read is one that was written for THAT key (64 equal bytes tagged with
+      // the key), reads never throw; ASan/UBSan watch the rest.  The store's contents afterwards are unspecified: last op of a case.
+      unsigned long long seed, ms;
+      if (t.size() != 3 || !vh::parseNat(t[1], seed) || !vh::parseNat(t[2], ms) || ms > 2000 || !freeRunning) return "bad-op";
+      std::atomic<bool> stop{false};
+      std::atomic<unsigned long> reads{0}, bad{0};
+      std::string firstBad;
+      std::mutex badMutex;
+      auto keyOf = [](unsigned i) { return std::string("stress-") + static_cast<char>('a' + i); };
+      auto good = [](unsigned i, const std::vector<std::uint8_t> &v)
+      {
+        if (v.size() != 64) return false;
+        for (auto b : v)
+          if (b != v[0]) return false;
+        return (v[0] >> 5) == i;
+      };
+      auto note = [&](const std::string &w)
+      {
+        bad++;
+        std::lock_guard<std::mutex> g(badMutex);
+        if (firstBad.empty()) firstBad = w;
+      };
+      std::thread writer([&]
+      {
+        unsigned long long x = seed * 2654435761ULL + 1;
+        unsigned n = 0;
+        while (!stop.load())
+        {
+          x = x * 6364136223846793005ULL + 1442695040888963407ULL;
+          unsigned i = (x >> 33) % 4, c = (x >> 40) % 7;
+          std::vector<std::uint8_t> v(64, static_cast<std::uint8_t>((i << 5) | (n++ & 31)));
+          try
+          {
+            if (c == 0) store->set(keyOf(i), v);
+            else if (c == 1) store->set(keyOf(i), v, std::chrono::seconds(1));
+            else if (c == 2) store->expireAt(keyOf(i), tpOfMs(g_wallMs.load() + static_cast<long long>((x >> 50) % 6)));
+            else if (c == 3) store->persist(keyOf(i));
+            else if (c == 4) store->remove(keyOf(i));
+            else if (c == 5) store->setBatch({{keyOf(i), v}, {keyOf((i + 1) % 4), std::vector<std::uint8_t>(64, static_cast<std::uint8_t>((((i + 1) % 4) << 5) | (n & 31)))}});
+            else store->compact();
+          }
+          catch (const std::exception &e)
+          {
+            note(std::string("writer threw ") + typeid(e).name());
+          }
+        }
+      });
+      auto readerFn = [&](unsigned long long salt)
+      {
+        unsigned long long x = (seed ^ salt) * 0x9E3779B97F4A7C15ULL + 7;
+        while (!stop.load())
+        {
+          x = x * 6364136223846793005ULL + 1442695040888963407ULL;
+          unsigned i = (x >> 33) % 4;
+          try
+          {
+            auto v = store->get(keyOf(i));
+            if (v && !good(i, *v)) note("get returned a torn or foreign value for " + keyOf(i));
+            auto gb = store->getBatch({keyOf(i), keyOf((i + 1) % 4)});
+            for (auto &kv : gb)
+              if (!good(static_cast<unsigned>(kv.first.back() - 'a'), kv.second)) note("getBatch returned a torn or foreign value for " + kv.first);
+            (void)store->exists(keyOf(i));
+            (void)store->ttl(keyOf(i));
+            (void)store->size();
+            for (auto &k2 : store->keysWithPrefix("stress-"))
+              if (k2.size() != 8) note("keysWithPrefix returned a foreign key");
+            reads++;
+          }
+          catch (const std::exception &e)
+          {
+            note(std::string("reader threw ") + typeid(e).name());
+          }
+        }
+      };
+      std::thread r1(readerFn, 11), r2(readerFn, 23);
+      auto t0 = std::chrono::steady_clock::now();
+      while (std::chrono::steady_clock::now() - t0 < std::chrono::milliseconds(ms))
+      {
+        g_wallMs += 1 + static_cast<long long>(seed % 3);
+        std::this_thread::sleep_for(std::chrono::milliseconds(1));
+      }
+      stop = true;
+      writer.join();
+      r1.join();
+      r2.join();
+      g_stressReads += reads.load();
+      takeEvents();
+      if (bad.load()) return "BAD:" + firstBad;
+      return "ok";
     }
     if (op == "sleep")
     { // free-running mode only: let the real wheel / worker / compaction thread run
